@@ -131,7 +131,22 @@ CFG = {
             "token sequences split over two content streams at every token boundary; multi-page trees (flat and with an inner node) mixing good pages, "
             "undecodable or unknown-filter content, ill-formed content, non-embedded fonts and content arrays; 15 font dictionaries; random number "
             "substitutions, truncations, byte edits, random content-token walks and snippet pairs on six base documents; natively generated: every "
-            "prefix (quick: every 23rd) and random multi-edit mutations of the four sample PDFs of the repository. Files above 1.5 MB with more than 50 "
+            "prefix (quick: every 23rd) and random multi-edit mutations of the four sample PDFs of the repository; "
+            "WORK-AMPLIFYING SHAPES in well-formed files (corpus/C01/work_amplifying_shapes.case + 63 documents in quick, about 1200 in thorough; emitted "
+            "LAST, because the runner shortens its time limit after five timeouts): small type-correct documents (<= 10 KB in quick) in which the number of "
+            "paths / mentions is exponential or quadratic in the file size, so that the code as it is (every traversal visits a distinct object once) "
+            "answers in milliseconds while a traversal that works per mention or per path cannot finish within the 10 s limit and is reported as "
+            "`abnormal timeout`: layered DAGs of `levels` layers of w objects in which every object names every object of the next layer m times, grouped "
+            "(a a b b) or interleaved (a b a b) - w=1: ladders listing the same kid 2, 3 (thorough 4, 10) times on 24..60 (thorough ..100) consecutive levels; "
+            "w=2: diamonds, 30 (thorough 20..80) layers, m = 1, 2, 3; w=3, 5, 8 (thorough 16, 30): kids shared between all siblings; 2..4 layers with m = 50..200 "
+            "(thorough ..1500): the quadratic / cubic version; controls of 0..3 (thorough 0..8, fully crossed) levels - each built (a) as the PAGE TREE itself "
+            "(/Pages nodes with /Parent, /Count, /Kids; 0, 1 or 2 leaf pages below the last layer sharing one content stream and one font; thorough also "
+            "without /Parent) for the page-DOM work queue, the type checker and per-page decoding, and (b) from dictionaries (one key per mention), arrays, "
+            "and directly nested containers, ending at a stream, hung below the page, the catalog, the content stream's dictionary or the root of the page "
+            "tree, for dump_root and the type checker's reference handling; plus the linear members of the class: /Contents arrays repeating one stream "
+            "2..200 (thorough 1000) times inline and through an array object, one font under 1..200 keys, /Resources through a chain of 1..100 references, "
+            "1..50 (thorough 300) pages sharing all of these. Expected outcome = the model's own (Pipeline.run under its budgets |objU|+1, workBound, "
+            "|defs|+1, which are per distinct object: the model runs each of these documents in under a second). Files above 1.5 MB with more than 50 "
             "consecutive nesting openers (the 10^6-deep cases of the thorough tier) are answered `rejected` by a labelled closed form instead of the "
             "byte-list model. non-trivial = document >= 64 bytes (distinct by case hash)",
     "trusted_base": COMMON_TB + [
